@@ -626,6 +626,8 @@ class ExprMixin:
       return [Res(st, BoundMethod(v, name))]
     if isinstance(v, Abstract):
       self.unsupp(f'attribute {name} of {type(v).__name__}', node)
+    if name == '__new__':
+      return [Res(st, BoundMethod(v, name))]    # cls.__new__: checked at the call
     out = []
     # inspect.Parameter
     for st2, side in self.fork(st, is_VParam(v)):
@@ -1140,4 +1142,15 @@ def dkeys_axioms(has):
                 patterns=[seq[i]]),
       SAFE_FORALL([k], z3.Implies(has[k], z3.And(0 <= dkeys_pos(has, k), dkeys_pos(has, k) < cnt,
                                                seq[dkeys_pos(has, k)] == k)),
-                patterns=[dkeys_pos(has, k)]))
+                patterns=[dkeys_pos(has, k), has[k]]))
+
+
+def zip_axioms(K, n):
+  """zip_last(K, n, k): the last index i < n with K[i] == k, -1 if there is none (definite
+  description of a function of finite sequences; the two clauses determine it uniquely)."""
+  i = z3.Int('zl_i')
+  k = z3.Const('zl_k', Val)
+  w = zip_last(K, n, k)
+  return z3.And(
+      SAFE_FORALL([k], z3.Or(w == -1, z3.And(0 <= w, w < n, K[w] == k)), patterns=[w]),
+      SAFE_FORALL([i], z3.Implies(z3.And(0 <= i, i < n), zip_last(K, n, K[i]) >= i), patterns=[K[i]]))
